@@ -289,8 +289,12 @@ def build_pool(seed, tier):
     # to meet a reused Parser: every statement in its own dialect, error level cycling
     for _fi, fname in enumerate(fam_names):
         lvl = levels[(_fi + off) % len(levels)]
-        members = [{"op": "parse", "sql": q, "read": d, "error_level": lvl} for d, q in corpus.stateful_families()[fname]]
-        members += [{"op": "parse", "sql": q, "read": d, "error_level": lvl} for d, q in rng.sample(corpus.FAILING, 2)]
+        fam_ = corpus.stateful_families()[fname]
+        members = [{"op": "parse", "sql": q, "read": d, "error_level": lvl} for d, q in fam_]
+        # failing inputs are read in the dialects of the family's own members, so that they meet the same reused Parser objects
+        fds = sorted({d for d, _ in fam_}, key=str)
+        for j_, (d, q) in enumerate(rng.sample(corpus.FAILING, 4)):
+            members.append({"op": "parse", "sql": q, "read": fds[j_ % len(fds)] if d is None else d, "error_level": lvl})
         groups.append(members)
         calls.extend(members)
     for d in (None, "snowflake", "bigquery"):
